@@ -1,5 +1,351 @@
-(* C19 (stub while the model is validated) *)
-From Coq Require Import List ZArith.
-From BiomV Require Import Model.Summary.
-Theorem stub : True. Proof. exact I. Qed.
-Print Assumptions stub.
+(* C19: summaries and exports report the numbers that are in the matrix.
+   Statements only; proofs are in Proofs/SummaryProofs.v.
+
+   `rt` is the table as the code holds it: ids, metadata, storage format and the stored entries of
+   every row (CSR) or column (CSC) in stored order -- indices may be unsorted, zeros may be stored
+   explicitly.  `wf_r rt` says the ids are distinct, the shape fits the ids, indices are in range
+   and not repeated inside one row / column.  `content_of rt` is the table's content: ids, metadata and
+   the dense matrix `dense rt`.  `r_...` follow the code on the representation, `d_...` compute the
+   same figure directly from the dense matrix.  `nz_segs (r_segs rt)` = no explicitly stored zero. *)
+From Coq Require Import List Arith ZArith Bool Permutation Sorted.
+From BiomV Require Import Base.Tree Base.ListUtil Base.Matrix Model.Table Model.Sparse Model.Summary Proofs.SummaryProofs.
+Import ListNotations.
+
+(* A table built around scipy's arrays (indptr / indices / data, Sparse.cs) is such a representation,
+   and its dense matrix is Sparse.matrix_of. *)
+Theorem repr_of_arrays : forall oids sids f r omd smd,
+  wf_table_cs oids sids f r omd smd ->
+  wf_r (of_cs oids sids f r omd smd) /\
+  dense (of_cs oids sids f r omd smd) = matrix_of f r /\
+  (no_stored_zero r -> nz_segs (r_segs (of_cs oids sids f r omd smd))).
+Proof.
+  intros oids sids f r omd smd H. split; [apply of_cs_wf; exact H|].
+  split; [apply of_cs_dense|]. intros N. apply no_stored_zero_segs. exact N.
+Qed.
+Print Assumptions repr_of_arrays.
+
+(* ---------------------------------------------------------------- summaries that hold for EVERY representation
+   (unsorted indices and stored zeros included) *)
+
+(* sum: the whole table, per observation (rows), per sample (columns) -- the RIGHT scipy axis *)
+Theorem sums_agree : forall rt, wf_r rt ->
+  r_sum_whole rt = msum (dense rt) /\
+  r_sum Obs rt = row_sums (dense rt) /\
+  r_sum Samp rt = col_sums (r_nsamp rt) (dense rt).
+Proof. exact sum_agree. Qed.
+Print Assumptions sums_agree.
+
+(* iter_data(dense=True): observation vectors are the rows, sample vectors the columns *)
+Theorem dense_vectors_agree : forall rt, wf_r rt ->
+  r_vectors Obs rt = dense rt /\ r_vectors Samp rt = transpose (r_nsamp rt) (dense rt).
+Proof. exact vectors_agree. Qed.
+Print Assumptions dense_vectors_agree.
+
+(* nonzero_counts: binary counts the non-zero cells of each vector, otherwise sums its values;
+   'whole' gives the one figure for the whole matrix *)
+Theorem nonzero_counts_agree : forall a binary rt, wf_r rt ->
+  r_nonzero_counts a binary rt =
+  match a with
+  | AObs => map (vcount binary) (dense rt)
+  | ASamp => map (vcount binary) (transpose (r_nsamp rt) (dense rt))
+  | AWhole => [if binary then Z.of_nat (count_nonzero (dense rt)) else msum (dense rt)]
+  end.
+Proof. exact SummaryProofs.nonzero_counts_agree. Qed.
+Print Assumptions nonzero_counts_agree.
+
+(* reduce f axis: functools.reduce over every dense vector of the axis, for ANY binary function f;
+   refused on an empty table *)
+Theorem reduce_agree : forall (f : Z -> Z -> Z) a rt, wf_r rt ->
+  r_reduce f a rt = if r_empty rt then RErr E_TABLE else rmap (reduce1 f) (vectors_of a (content_of rt)).
+Proof. exact SummaryProofs.reduce_agree. Qed.
+Print Assumptions reduce_agree.
+
+(* ... and with addition it gives the sums of the axis *)
+Theorem reduce_add_is_sum : forall a rt, wf_r rt -> r_empty rt = false ->
+  r_reduce Z.add a rt = ROk (match a with Obs => row_sums (dense rt) | Samp => col_sums (r_nsamp rt) (dense rt) end).
+Proof. exact reduce_add_agree. Qed.
+Print Assumptions reduce_add_is_sum.
+
+(* nnz and get_table_density: numerator = number of non-zero CELLS (stored zeros are not counted),
+   denominator = samples x observations; 0 (= 0/1) for an empty table *)
+Theorem density_agree : forall rt, wf_r rt ->
+  r_nnz rt = count_nonzero (dense rt) /\
+  r_density rt = if r_empty rt then (0%Z, 1%Z)
+                 else (Z.of_nat (count_nonzero (dense rt)), Z.of_nat (r_nsamp rt * r_nobs rt)).
+Proof.
+  intros rt W. split; [apply nnz_agree; exact W|]. rewrite (SummaryProofs.density_agree rt W). reflexivity.
+Qed.
+Print Assumptions density_agree.
+
+(* compute_counts_per_sample_stats: computed on the per-sample totals (binary: non-zero counts) of the dense matrix *)
+Theorem stats_agree : forall binary rt, wf_r rt ->
+  r_stats binary rt =
+  (stats (map (vcount binary) (transpose (r_nsamp rt) (dense rt))),
+   combine (r_sids rt) (map (vcount binary) (transpose (r_nsamp rt) (dense rt)))).
+Proof. exact SummaryProofs.stats_agree. Qed.
+Print Assumptions stats_agree.
+
+(* min, max are members and bounds; the median is the middle of the SORTED figures, the mean of the middle
+   two when their number is even; the mean is total / number.  (0,0,0,0) when there is no sample. *)
+Theorem stats_spec : forall l, l <> [] ->
+  let '(mn, mx, med, avg) := stats l in
+  (In mn l /\ forall x, In x l -> (mn <= x)%Z) /\
+  (In mx l /\ forall x, In x l -> (x <= mx)%Z) /\
+  (exists s, Permutation s l /\ StronglySorted Z.le s /\
+             med = if Nat.even (length l)
+                   then ((nth (length l / 2 - 1) s 0 + nth (length l / 2) s 0)%Z, 2%Z)
+                   else (nth (length l / 2) s 0%Z, 1%Z)) /\
+  avg = (zsum l, Z.of_nat (length l)).
+Proof. exact stats_spec_nonempty. Qed.
+Print Assumptions stats_spec.
+
+Theorem stats_empty : stats [] = (0%Z, 0%Z, (0%Z, 1%Z), (0%Z, 1%Z)).
+Proof. reflexivity. Qed.
+Print Assumptions stats_empty.
+
+(* ---------------------------------------------------------------- summaries that walk the STORED entries *)
+
+(* what min / max of one vector are: for a vector with a non-zero entry the least / greatest of its
+   non-zero values; for a vector without one the call is refused (numpy: ValueError) *)
+Theorem minmax_spec : forall v,
+  ((exists x, In x v /\ x <> 0%Z) ->
+     (exists m, lred Z.min (nonzeros v) = ROk m /\ In m v /\ m <> 0%Z /\ forall x, In x v -> x <> 0%Z -> (m <= x)%Z) /\
+     (exists m, lred Z.max (nonzeros v) = ROk m /\ In m v /\ m <> 0%Z /\ forall x, In x v -> x <> 0%Z -> (x <= m)%Z)) /\
+  ((forall x, In x v -> x = 0%Z) ->
+     lred Z.min (nonzeros v) = RErr E_VALUE /\ lred Z.max (nonzeros v) = RErr E_VALUE).
+Proof.
+  intros v. destruct (vec_min_spec v) as [A1 A2]. destruct (vec_max_spec v) as [B1 B2].
+  split; intros H; split; auto.
+Qed.
+Print Assumptions minmax_spec.
+
+(* without stored zeros min / max per axis and for the whole table are those of the dense vectors, whatever
+   the format and the order of the indices (the first vector without a non-zero entry refuses the call) *)
+Theorem minmax_repr_indep : forall a rt, wf_r rt -> nz_segs (r_segs rt) ->
+  r_min a rt = d_extreme Z.min a (content_of rt) /\
+  r_max a rt = d_extreme Z.max a (content_of rt) /\
+  r_extreme_whole Z.min rt = d_extreme_whole Z.min (content_of rt) /\
+  r_extreme_whole Z.max rt = d_extreme_whole Z.max (content_of rt).
+Proof.
+  intros a rt W N. repeat split;
+    [apply min_agree|apply max_agree|apply min_whole_agree|apply max_whole_agree]; assumption.
+Qed.
+Print Assumptions minmax_repr_indep.
+
+(* ... and a stored zero does change them (the reason why subsample and the constructor now eliminate zeros) *)
+Definition ex_zero : rtable :=
+  mkR [10; 20]%Z [1; 2; 3]%Z CSR 3 [[(0, 3%Z); (1, 0%Z)]; [(2, 4%Z)]] None None.
+Theorem minmax_stored_zero_differs :
+  exists rt, wf_r rt /\ r_min Obs rt = ROk [0; 4]%Z /\ d_extreme Z.min Obs (content_of rt) = ROk [3; 4]%Z.
+Proof. exists ex_zero. split; [apply wf_rb_wf; vm_compute; reflexivity|]. split; vm_compute; reflexivity. Qed.
+Print Assumptions minmax_stored_zero_differs.
+
+(* nonzero(): without stored zeros exactly the (observation, sample) pairs with a non-zero cell, each once *)
+Theorem nonzero_exact : forall rt, wf_r rt -> nz_segs (r_segs rt) ->
+  (forall o s, In (o, s) (r_nonzero rt) <-> exists v, cell (content_of rt) o s = Some v /\ v <> 0%Z) /\
+  length (r_nonzero rt) = count_nonzero (dense rt).
+Proof. intros rt W N. split; [apply nonzero_members|apply nonzero_length]; assumption. Qed.
+Print Assumptions nonzero_exact.
+
+(* with sorted indices (always so when the table is held as CSC) the pairs come row by row, columns ascending *)
+Theorem nonzero_order : forall rt, wf_r rt -> nz_segs (r_segs rt) ->
+  (sorted_segs (row_segs rt) \/ r_fmt rt = CSC) -> r_nonzero rt = d_nonzero (content_of rt).
+Proof.
+  intros rt W N [S|E]; [apply nonzero_sorted_exact|apply nonzero_csc_exact]; assumption.
+Qed.
+Print Assumptions nonzero_order.
+
+Theorem nonzero_stored_zero_differs :
+  exists rt o s, wf_r rt /\ In (o, s) (r_nonzero rt) /\ cell (content_of rt) o s = Some 0%Z.
+Proof.
+  exists ex_zero, 10%Z, 2%Z. split; [apply wf_rb_wf; vm_compute; reflexivity|].
+  split; [vm_compute; tauto|vm_compute; reflexivity].
+Qed.
+Print Assumptions nonzero_stored_zero_differs.
+
+(* the core statement in one piece: on a coherent table every summary computed along the code path equals
+   the same figure computed directly from the dense matrix -- sums with the right axis, non-zero counts,
+   density numerator = number of non-zero cells, reduce with + = sums, and (no stored zero) nonzero() =
+   exactly the pairs with a non-zero cell *)
+Theorem summaries_agree : forall rt, wf_r rt ->
+  r_sum_whole rt = msum (dense rt) /\
+  r_sum Obs rt = row_sums (dense rt) /\
+  r_sum Samp rt = col_sums (r_nsamp rt) (dense rt) /\
+  (forall binary, r_nonzero_counts AObs binary rt = map (vcount binary) (dense rt) /\
+                  r_nonzero_counts ASamp binary rt = map (vcount binary) (transpose (r_nsamp rt) (dense rt))) /\
+  r_nnz rt = count_nonzero (dense rt) /\
+  (r_empty rt = false ->
+     r_density rt = (Z.of_nat (count_nonzero (dense rt)), Z.of_nat (r_nsamp rt * r_nobs rt)) /\
+     r_reduce Z.add Obs rt = ROk (row_sums (dense rt)) /\
+     r_reduce Z.add Samp rt = ROk (col_sums (r_nsamp rt) (dense rt))) /\
+  (nz_segs (r_segs rt) ->
+     forall o s, In (o, s) (r_nonzero rt) <-> exists v, cell (content_of rt) o s = Some v /\ v <> 0%Z).
+Proof.
+  intros rt W. destruct (sum_agree rt W) as (A & B & C).
+  split; [exact A|]. split; [exact B|]. split; [exact C|].
+  split; [intros b; split; [exact (SummaryProofs.nonzero_counts_agree AObs b rt W)|exact (SummaryProofs.nonzero_counts_agree ASamp b rt W)]|].
+  split; [apply nnz_agree; exact W|].
+  split.
+  - intros E. split; [|split; apply reduce_add_agree; assumption].
+    rewrite (SummaryProofs.density_agree rt W). unfold d_density, content_of, nsamp, nobs. simpl.
+    unfold r_empty, r_nsamp, r_nobs in E. rewrite E. reflexivity.
+  - intros N. apply nonzero_members; assumption.
+Qed.
+Print Assumptions summaries_agree.
+
+(* ---------------------------------------------------------------- transpose, the report *)
+
+(* Table.transpose on the representation gives the transposed content (and a well-formed table) *)
+Theorem transpose_repr : forall rt, wf_r rt ->
+  wf_r (rt_transpose rt) /\ content_of (rt_transpose rt) = transpose_t (content_of rt).
+Proof. intros rt W. split; [apply wf_rt_transpose|apply content_transpose]; exact W. Qed.
+Print Assumptions transpose_repr.
+
+(* every figure of the summarize-table report, in each mode, is the figure computed from the dense content *)
+Theorem report_agree : forall q o rt, wf_r rt -> r_report q o rt = d_report q o (content_of rt).
+Proof. exact SummaryProofs.report_agree. Qed.
+Print Assumptions report_agree.
+
+(* the fields of the plain report: per-sample totals (qualitative: numbers of non-zero observations per
+   sample) of the matrix, their statistics, total, density, the metadata keys of the first ids, and the
+   detail lines *)
+Theorem report_fields : forall q t,
+  d_report q false t =
+  let counts := map (vcount q) (transpose (nsamp t) (mat t)) in
+  let '(mn, mx, med, avg) := stats counts in
+  ([(1, FZ (Z.of_nat (nsamp t))); (2, FZ (Z.of_nat (nobs t)))]%Z
+   ++ (if q then [] else [(3, FZ (zsum counts)); (4, FQ (d_density t))]%Z)
+   ++ [(5, FZ mn); (6, FZ mx); (7, FQ med); (8, FQ avg); (9, FQ (variance counts))]%Z
+   ++ [(10, FKeys (md_keys (smd t))); (11, FKeys (md_keys (omd t)))]%Z,
+   ksort (combine (sids t) counts)).
+Proof.
+  intros q t. unfold d_report, report_lines, d_sample_counts. simpl.
+  destruct (stats (map (vcount q) (transpose (nsamp t) (mat t)))) as [[[mn mx] med] avg]. reflexivity.
+Qed.
+Print Assumptions report_fields.
+
+(* --observations: the numeric lines and the detail lines are those of the plain report of the TRANSPOSED
+   table (the two counts and the two key lists keep describing the table as given) ... *)
+Theorem report_transposed : forall q t,
+  numeric_lines (d_report q true t) = numeric_lines (d_report q false (transpose_t t)) /\
+  snd (d_report q true t) = snd (d_report q false (transpose_t t)).
+Proof. exact report_numeric_transposed. Qed.
+Print Assumptions report_transposed.
+
+(* ... that is, the per-OBSERVATION figures: totals (non-zero counts) of the ROWS of the matrix, listed under
+   the observation ids; "Num samples", "Num observations" and the category lines are those of the table as given *)
+Theorem report_observations_fields : forall q t, wf t ->
+  d_report q true t =
+  (report_lines false q (nsamp t) (nobs t) (map (vcount q) (mat t)) (d_density t) (md_keys (smd t)) (md_keys (omd t)),
+   ksort (combine (oids t) (map (vcount q) (mat t)))).
+Proof. exact report_transposed_spec. Qed.
+Print Assumptions report_observations_fields.
+
+(* the detail lines list every (id, figure) once, in ascending order of the figure *)
+Theorem report_detail_sorted : forall l,
+  Permutation (ksort l) l /\ StronglySorted (fun a b => (snd a <= snd b)%Z) (ksort l).
+Proof. exact ksort_spec. Qed.
+Print Assumptions report_detail_sorted.
+
+(* ---------------------------------------------------------------- table-ids, head *)
+Theorem table_ids_agree : forall obs rt,
+  r_table_ids obs rt = if obs then oids (content_of rt) else sids (content_of rt).
+Proof. intros [|] rt; reflexivity. Qed.
+Print Assumptions table_ids_agree.
+
+(* head -n n -m m prints the leading n x m block: the first m sample ids, the first n observation ids,
+   and under them the cells of the dense matrix; n <= 0 or m <= 0 is refused *)
+Theorem head_block : forall n m rt ss rows, wf_r rt -> cli_head n m rt = ROk (ss, rows) ->
+  (0 < n)%Z /\ (0 < m)%Z /\
+  ss = firstn (Z.to_nat m) (r_sids rt) /\ map fst rows = firstn (Z.to_nat n) (r_oids rt) /\
+  forall i j, i < Nat.min (Z.to_nat n) (r_nobs rt) -> j < Z.to_nat m ->
+    nth j (snd (nth i rows (0%Z, []))) 0%Z = get (dense rt) i j.
+Proof. exact cli_head_spec. Qed.
+Print Assumptions head_block.
+
+Theorem head_refuses : forall n m rt, (n <= 0)%Z \/ (m <= 0)%Z -> cli_head n m rt = RErr E_VALUE.
+Proof. exact cli_head_refuses. Qed.
+Print Assumptions head_refuses.
+
+(* ---------------------------------------------------------------- pandas export *)
+Theorem dataframe_dense_agree : forall rt,
+  df_dense rt = (oids (content_of rt), sids (content_of rt), mat (content_of rt)).
+Proof. intros rt. reflexivity. Qed.
+Print Assumptions dataframe_dense_agree.
+
+(* to_dataframe() (sparse): a cell that shows a value shows the matrix value, a missing cell stands on a zero;
+   without stored zeros the missing cells are exactly the zero cells ... *)
+Theorem dataframe_sparse_cells : forall rt i j, wf_r rt -> i < r_nobs rt -> j < r_nsamp rt ->
+  match nth j (nth i (df_sparse rt) []) None with
+  | Some v => get (dense rt) i j = v
+  | None => get (dense rt) i j = 0%Z
+  end /\
+  (nz_segs (r_segs rt) -> (nth j (nth i (df_sparse rt) []) None = None <-> get (dense rt) i j = 0%Z)).
+Proof.
+  intros rt i j W Hi Hj. split; [apply df_sparse_cells; assumption|].
+  intros N. apply df_sparse_missing_iff; assumption.
+Qed.
+Print Assumptions dataframe_sparse_cells.
+
+(* ... so the sparse export does NOT equal the dense matrix: zero cells are shown as missing (NaN), finding F20 *)
+Definition ex_f20 : rtable := mkR [10; 20]%Z [1; 2]%Z CSR 2 [[(0, 5%Z)]; [(1, 1%Z)]] None None.
+Theorem dataframe_sparse_refuted :
+  exists rt i j, wf_r rt /\ nz_segs (r_segs rt) /\ i < r_nobs rt /\ j < r_nsamp rt /\
+    nth j (nth i (df_sparse rt) []) None <> Some (get (dense rt) i j).
+Proof.
+  exists ex_f20, 0, 1. split; [apply wf_rb_wf; vm_compute; reflexivity|].
+  split; [apply nz_segsb_nz; vm_compute; reflexivity|]. vm_compute. repeat split; auto. discriminate.
+Qed.
+Print Assumptions dataframe_sparse_refuted.
+
+(* ---------------------------------------------------------------- metadata export *)
+(* metadata whose values are scalars: one column per key (keys in order of first appearance), and every
+   cell is the value found under that key for that id (missing key: missing value), whatever the order of
+   the keys inside each id's metadata *)
+Theorem metadata_export_by_key : forall ids md, no_seq md ->
+  md_df ids (Some md) =
+  ROk (map (fun k => L [k]) (map fst (widths md)), combine ids (d_md_rows (map fst (widths md)) md)).
+Proof. exact md_export_by_key. Qed.
+Print Assumptions metadata_export_by_key.
+
+Theorem metadata_columns_complete : forall md e kv,
+  In e md -> In kv (tL e) -> In (kv_key kv) (map fst (widths md)).
+Proof. exact widths_complete. Qed.
+Print Assumptions metadata_columns_complete.
+
+Theorem metadata_export_none : forall ids, md_df ids None = RErr E_KEY.
+Proof. reflexivity. Qed.
+Print Assumptions metadata_export_none.
+
+(* ---------------------------------------------------------------- non-vacuity
+   the standard witness: 3 x 4, an all-zero row, unsorted indices, one stored zero; and its CSC form *)
+Definition ex_rt : rtable :=
+  mkR [10; 20; 30]%Z [1; 2; 3; 4]%Z CSR 4 [[(3, 7%Z); (0, 5%Z)]; []; [(1, 2%Z); (2, 0%Z)]]
+      (Some [L [L [L [I 112]; L [I 2; I 1]]]; L [L [L [I 112]; L [I 2; I 2]]]; L [L [L [I 112]; L [I 2; I 3]]]]%Z) None.
+Definition ex_nz : rtable :=
+  mkR [10; 20; 30]%Z [1; 2; 3; 4]%Z CSC 3 [[(0, 5%Z)]; [(2, 2%Z)]; []; [(2, (-1)%Z); (0, 7%Z)]] None None.
+Example ex_rt_wf : wf_r ex_rt. Proof. apply wf_rb_wf. vm_compute. reflexivity. Qed.
+Example ex_nz_wf : wf_r ex_nz /\ nz_segs (r_segs ex_nz).
+Proof. split; [apply wf_rb_wf|apply nz_segsb_nz]; vm_compute; reflexivity. Qed.
+Example ex_dense : dense ex_rt = [[5; 0; 0; 7]; [0; 0; 0; 0]; [0; 2; 0; 0]]%Z /\
+                   dense ex_nz = [[5; 0; 0; 7]; [0; 0; 0; 0]; [0; 2; 0; -1]]%Z.
+Proof. vm_compute. split; reflexivity. Qed.
+Example ex_sums : r_sum_whole ex_rt = 14%Z /\ r_sum Obs ex_rt = [12; 0; 2]%Z /\ r_sum Samp ex_rt = [5; 2; 0; 7]%Z /\
+                  r_sum Samp ex_nz = [5; 2; 0; 6]%Z /\ r_density ex_rt = (3, 12)%Z.
+Proof. vm_compute. repeat split; reflexivity. Qed.
+Example ex_minmax : r_min Samp ex_nz = RErr E_VALUE /\ r_min Obs ex_nz = RErr E_VALUE /\
+                    r_max Samp (mkR [10; 30]%Z [1; 2; 4]%Z CSC 2 [[(0, 5%Z)]; [(1, 2%Z)]; [(1, (-1)%Z); (0, 7%Z)]] None None)
+                    = ROk [5; 2; 7]%Z.
+Proof. vm_compute. repeat split; reflexivity. Qed.
+Example ex_nonzero : r_nonzero ex_nz = [(10, 1); (10, 4); (30, 2); (30, 4)]%Z /\
+                     r_nonzero ex_rt = [(10, 4); (10, 1); (30, 2); (30, 3)]%Z.
+Proof. vm_compute. split; reflexivity. Qed.
+Example ex_report : snd (r_report false true ex_rt) = [(20, 0); (30, 2); (10, 12)]%Z /\
+                    snd (r_report true false ex_rt) = [(3, 0); (1, 1); (2, 1); (4, 1)]%Z /\
+                    fst (fst (fst (stats [9; 1; 4; 2]%Z))) = 1%Z /\ snd (fst (stats [9; 1; 4; 2]%Z)) = (6, 2)%Z.
+Proof. vm_compute. repeat split; reflexivity. Qed.
+Example ex_md : md_df [10; 20]%Z (Some [L [L [L [I 112]; L [I 2; I 1]]; L [L [I 113]; L [I 2; I 2]]];
+                                        L [L [L [I 113]; L [I 2; I 3]]; L [L [I 112]; L [I 2; I 4]]]]%Z)
+              = ROk ([L [L [I 112]]; L [L [I 113]]]%Z,
+                     [(10, [L [I 2; I 1]; L [I 2; I 2]]); (20, [L [I 2; I 4]; L [I 2; I 3]])]%Z).
+Proof. vm_compute. reflexivity. Qed.
